@@ -61,11 +61,13 @@ class SimTablePolicy(AbstractActorCriticPolicy):
 
     kind: str = eqx.field(static=True)
     comps: tuple[int, ...] = eqx.field(static=True)
+    use_probs: bool = eqx.field(static=True, default=False)   # build the law from probabilities (documented `probs=`) instead of logits
 
-    def __init__(self, env, tables):
+    def __init__(self, env, tables, use_probs: bool = False):
         inner = env.unwrapped
         self.kind = inner.kind
         self.comps = inner.comps
+        self.use_probs = use_probs
         self.action_space = env.action_space
         self.observation_space = env.observation_space
         self.logits = jnp.asarray(tables["logits"], dtype=float)
@@ -86,11 +88,11 @@ class SimTablePolicy(AbstractActorCriticPolicy):
         kb = self.kbias[jnp.minimum(state.k, KB - 1)]
         p = self.logits[s] + kb
         if self.kind == "discrete":
-            d = Categorical(logits=p)
+            d = Categorical(probs=jax.nn.softmax(p)) if self.use_probs else Categorical(logits=p)
         elif self.kind == "multidiscrete":
             d = MultiCategorical(p, action_dims=self.comps)
         elif self.kind == "multibinary":
-            d = Bernoulli(logits=p)
+            d = Bernoulli(probs=jax.nn.sigmoid(p)) if self.use_probs else Bernoulli(logits=p)
         elif self.kind == "box":
             return MultivariateNormalDiag(loc=p, scale_diag=self.scale[s])
         elif self.kind == "boxscalar":
